@@ -31,6 +31,7 @@ import (
 	"time"
 
 	sdk "github.com/cosmos/cosmos-sdk/types"
+	sdkquery "github.com/cosmos/cosmos-sdk/types/query"
 
 	"github.com/ovrclk/akash/pubsub"
 	"github.com/ovrclk/akash/types"
@@ -348,10 +349,44 @@ func vRunService(run *vSvcRun, seed int64) (*vSvcState, []*order, bool) {
 	if !run.EarlyEvents {
 		close(ordersRelease)
 	}
-	sess := venv.NewSessionWith(g, provider, venv.Options{Orders: func(*mtypes.QueryOrdersRequest) (*mtypes.QueryOrdersResponse, error) {
+	// the chain holds many more orders than the open ones (1 100 closed orders
+	// behind them); the listing honours the page size and key of the request,
+	// and the first request for a follow-up page fails once, as a node under
+	// load would (a single request with a large enough limit sees none of this)
+	all := append([]mtypes.Order(nil), existing...)
+	for i := 0; i < 1100; i++ {
+		all = append(all, mtypes.Order{OrderID: mtypes.OrderID{Owner: s.prov.String(), DSeq: uint64(5000 + i), GSeq: 1, OSeq: 1}, State: mtypes.OrderClosed})
+	}
+	var failedOnce int32
+	sess := venv.NewSessionWith(g, provider, venv.Options{Orders: func(req *mtypes.QueryOrdersRequest) (*mtypes.QueryOrdersResponse, error) {
 		enteredOnce.Do(func() { close(ordersEntered) })
 		<-ordersRelease
-		return &mtypes.QueryOrdersResponse{Orders: existing}, nil
+		start, limit := 0, len(all)
+		if req != nil && req.Pagination != nil {
+			if len(req.Pagination.Key) > 0 {
+				if atomic.CompareAndSwapInt32(&failedOnce, 0, 1) {
+					return nil, errors.New("scripted: transient failure of a follow-up page")
+				}
+				fmt.Sscanf(string(req.Pagination.Key), "%d", &start)
+			} else if req.Pagination.Offset > 0 {
+				start = int(req.Pagination.Offset)
+			}
+			if req.Pagination.Limit > 0 && int(req.Pagination.Limit) < limit {
+				limit = int(req.Pagination.Limit)
+			}
+		}
+		if start > len(all) {
+			start = len(all)
+		}
+		end := start + limit
+		if end > len(all) {
+			end = len(all)
+		}
+		resp := &mtypes.QueryOrdersResponse{Orders: all[start:end], Pagination: &sdkquery.PageResponse{Total: uint64(len(all))}}
+		if end < len(all) {
+			resp.Pagination.NextKey = []byte(fmt.Sprintf("%d", end))
+		}
+		return resp, nil
 	}})
 	cfg := Config{PricingStrategy: &vPricing{g: g}, Deposit: sdk.NewInt64Coin("uakt", 5000000)}
 
